@@ -265,6 +265,17 @@ func init() {
 		rt := c.fn.Signature.Results().At(0).Type()
 		return ret(e.docStruct(rt, t.def, r.present, r.cols))
 	}
+	stubs[p+"verifDocSlotAny"] = func(e *Exec, th *Thread, c *CallCtx, a []Val) StubRes {
+		db := dbOf(a[0])
+		i := e.concreteInt(a[1], "slot")
+		t := e.currentState(db).tables["documents"]
+		rt := c.fn.Signature.Results().At(0).Type()
+		if i >= len(t.rows) {
+			return ret(e.docStruct(rt, t.def, tFalse, e.absentRow(t.def).cols))
+		}
+		r := t.rows[i]
+		return ret(e.docStruct(rt, t.def, r.present, r.cols))
+	}
 	stubs[p+"verifGetDoc"] = func(e *Exec, th *Thread, c *CallCtx, a []Val) StubRes {
 		db := dbOf(a[0])
 		coll := a[1].(*Term)
